@@ -49,10 +49,21 @@ def _variants(scn):
     return [m for m in (1, 2, 3, n, n + 1, 50)]
 
 
-def run(tape, prop, tier):
-    res = Result()
+def scenario_of(tape, prop, tier):
     scn = exgen.build(tape, "C03", tier)
     scn["nosusp"] = not tape.chance(0.35)
+    return scn
+
+
+simplifications = exsim.simplifications
+
+
+def run(tape, prop, tier):
+    return run_scenario(scenario_of(tape, prop, tier), prop, tier)
+
+
+def run_scenario(scn, prop, tier):
+    res = Result()
     ctx = exsim._execute(exsim.Ctx(scn, "C03"))
     herr = getattr(ctx, "harness_error", None)
     if herr:
@@ -105,6 +116,7 @@ def run(tape, prop, tier):
     kinds = tuple(t[0].split("(")[0] + ":" + t[1] for t in ctx.trace if t[0] != "oe")
     res.sig = digest_of((len(scn["bases"]), scn["maxc"], scn["ts_mode"], kinds))
     res.digest = digest_of((ctx.trace, ctx.final, ctx.outcome, finals))
+    res.scenario = scn
     res.sample = dict(config={k: scn[k] for k in ("bases", "prec", "fee", "liq", "init", "maxc", "sub_first", "ts_mode", "nosusp")},
                       bars_per_pair=[len(b) for b in scn["bars"]],
                       ops=[t[0] + " -> " + t[1] for t in ctx.trace if t[0] != "oe"][:20],
